@@ -24,7 +24,7 @@ Section Gen.
     | m :: rest =>
       if str_eqb (m_name m) (K"__init__") then modules_data rest
       else
-        mdo r <- module_string a nc m;
+        mdo r <- module_string (api_classes a) (api_reexport_map a) nc m;
         let '(text, package_info) := r in
         if module_text_is_empty text then modules_data rest
         else
@@ -38,7 +38,7 @@ Section Gen.
 
   Definition generate_stub_data : M (list entry) :=
     mdo d1 <- modules_data (api_modules a);
-    mdo d2 <- reexport_module_strings a nc;
+    mdo d2 <- reexport_module_strings (api_classes a) (api_reexport_map a) nc;
     ret (d1 ++ map (fun x : str * str * str => let '(id, n, t) := x in (id, n, t, true)) d2).
 
   Definition run_generate : res (list entry * gst) := generate_stub_data init_gst.
